@@ -13,6 +13,8 @@ form m - i (i the 0-based enumerate index over the p-values sorted by
 argsort, m the flattened size), i.e. m - k + 1; Bonferroni's level is alpha /
 size of the reference dataset; UNSORT - both returned arrays are indexed by
 the inverse permutation argsort(sorted_inds) and reshaped to the input shape.
+PER-DATASET - evaluate hands the correction function one element of
+<result>.pvalue (one dataset) at a time, never the pooled list.
 Not decided: behaviour under ties of argsort, floating-point division, the
 containment Bonferroni-flags-subset-of-Holm-flags as a numeric fact.
 '''
